@@ -119,10 +119,23 @@ def names_of_module(tree) -> dict:
         if isinstance(node, (ast.Import, ast.ImportFrom)):
             for al in node.names:
                 consts.add((al.asname or al.name).split('.')[0])
-    funcs = {}
+    funcs, kws = {}, {}
     for q, f, _ in func_quals(tree):
         funcs[q] = sorted(local_names(f))
-    return {'consts': sorted(consts), 'funcs': funcs}
+        kws[q] = sorted(keyword_uses(f))
+    return {'consts': sorted(consts), 'funcs': funcs, 'kws': kws}
+
+
+def keyword_uses(func) -> set:
+    """'callee:keyword' for every keyword argument passed in the function"""
+    out = set()
+    for n in ast.walk(func):
+        if isinstance(n, ast.Call):
+            cal = n.func.attr if isinstance(n.func, ast.Attribute) else n.func.id if isinstance(n.func, ast.Name) else '?'
+            for k in n.keywords:
+                if k.arg:
+                    out.add(f'{cal}:{k.arg}')
+    return out
 
 
 _baseline_cache = None
@@ -304,6 +317,21 @@ def _fold_ifexp(stmts, var):
     return out
 
 
+def _split_tuple_assign(st):
+    """a, b = (x, y)  ->  [a = x, b = y]  when the elements are pure and no target is read by an element; else None"""
+    if not (isinstance(st, ast.Assign) and len(st.targets) == 1 and isinstance(st.targets[0], ast.Tuple)
+            and isinstance(st.value, ast.Tuple) and len(st.value.elts) == len(st.targets[0].elts)
+            and not any(isinstance(e_, ast.Starred) for e_ in st.targets[0].elts + st.value.elts)):
+        return None
+    tn = set()
+    for t_ in st.targets[0].elts:
+        tn |= {n.id for n in ast.walk(t_) if isinstance(n, ast.Name)}
+    vn = {n.id for e_ in st.value.elts for n in ast.walk(e_) if isinstance(n, ast.Name)}
+    if (tn & vn) or not all(is_pure(e_) for e_ in st.value.elts):
+        return None
+    return [ast.copy_location(ast.Assign(targets=[t_], value=e_, lineno=st.lineno), st) for t_, e_ in zip(st.targets[0].elts, st.value.elts)]
+
+
 class _Rename(ast.NodeTransformer):
     def __init__(self, ren, subst):
         self.ren = ren          # name -> new name
@@ -426,6 +454,12 @@ class Normaliser:
         self._drop_unused()
         for path in sorted(self.modules):
             tree = self.modules[path].tree
+            basekw = self.base.get(path, {}).get('kws', {})
+            for q, f, cls in list(func_quals(tree)):
+                if q in basekw:
+                    self._keywords(path, q, f, cls, set(basekw[q]))
+        for path in sorted(self.modules):
+            tree = self.modules[path].tree
             base = self.base.get(path, {}).get('funcs', {})
             for q, f, cls in list(func_quals(tree)):
                 known = set(base.get(q, ())) if q in base else None
@@ -534,7 +568,10 @@ class Normaliser:
         bm = self.base.get(path)
         known = set(bm['funcs'].get(qual, ())) if (bm and qual in bm['funcs']) else None
         fctx['known_locals'] = known
+        before = len(self.log)
         func.body = self._block(func.body, fctx)
+        if len(self.log) > before:
+            self._fold_attr_strings(func)
         self._values_to_lambda(func, fctx)
         self._drop_closures(func, fctx)
         func._kv_norm = True
@@ -560,7 +597,12 @@ class Normaliser:
                     fctx['closures'][s.name] = s
             return [s]
         # expression-level inlining everywhere in the statement's own expressions
+        before = len(self.log)
         self._expr_inline(s, fctx)
+        if len(self.log) > before:
+            sp_ = _split_tuple_assign(s)
+            if sp_:
+                return sp_
         pre = []
         guard = 0
         while guard < 40:
@@ -665,12 +707,37 @@ class Normaliser:
         return bound
 
     def _single_return_expr(self, func):
+        """the returned expression of a helper whose body is `return e`, or straight-line bindings of pure single-assignment
+        locals followed by `return e` (the locals are folded into e: nothing can change between a pure binding and its use)"""
         body = list(func.body)
         if body and isinstance(body[0], ast.Expr) and isinstance(body[0].value, ast.Constant) and isinstance(body[0].value.value, str):
             body = body[1:]
-        if len(body) == 1 and isinstance(body[0], ast.Return) and body[0].value is not None:
+        if not body or not isinstance(body[-1], ast.Return) or body[-1].value is None:
+            return None
+        if len(body) == 1:
             return body[0].value
-        return None
+        params = {x.arg for x in func.args.posonlyargs + func.args.args + func.args.kwonlyargs}
+        env = {}
+        for st in body[:-1]:
+            if not (isinstance(st, ast.Assign) and len(st.targets) == 1):
+                return None
+            t, v = st.targets[0], st.value
+            pairs = []
+            if isinstance(t, ast.Name):
+                pairs = [(t.id, v)]
+            elif isinstance(t, ast.Tuple) and isinstance(v, ast.Tuple) and len(t.elts) == len(v.elts) and all(isinstance(e, ast.Name) for e in t.elts):
+                pairs = [(a.id, b) for a, b in zip(t.elts, v.elts)]
+            else:
+                return None
+            new = {}
+            for nm, val in pairs:
+                if nm in env or nm in params or not is_pure(val):
+                    return None
+                new[nm] = _Rename({}, env).visit(copy.deepcopy(val))
+            env.update(new)
+        if _nested_bound_names([ast.Expr(value=body[-1].value)]) & set(env):
+            return None
+        return _Rename({}, env).visit(copy.deepcopy(body[-1].value))
 
     def _expr_inline(self, stmt, fctx):
         """replace calls to single-return helpers by the returned expression (also under lambdas/comprehensions)"""
@@ -785,6 +852,34 @@ class Normaliser:
         ret = ast.copy_location(ast.Name(id=retname, ctx=ast.Load()), call) if retname else None
         return temps + flat, ret
 
+    @staticmethod
+    def _fold_attr_strings(func):
+        """after inlining a helper that took an attribute name as a string argument:
+        'a' + 'b' -> 'ab';  getattr(x, 'name') -> x.name;  setattr(x, 'name', v) -> x.name = v"""
+        class T(ast.NodeTransformer):
+            def visit_BinOp(self, node):
+                self.generic_visit(node)
+                if isinstance(node.op, ast.Add) and all(isinstance(x, ast.Constant) and isinstance(x.value, str) for x in (node.left, node.right)):
+                    return ast.copy_location(ast.Constant(value=node.left.value + node.right.value), node)
+                return node
+
+            def visit_Call(self, node):
+                self.generic_visit(node)
+                if isinstance(node.func, ast.Name) and node.func.id == 'getattr' and len(node.args) == 2 and not node.keywords \
+                        and isinstance(node.args[1], ast.Constant) and isinstance(node.args[1].value, str) and node.args[1].value.isidentifier():
+                    return ast.copy_location(ast.Attribute(value=node.args[0], attr=node.args[1].value, ctx=ast.Load()), node)
+                return node
+
+            def visit_Expr(self, node):
+                self.generic_visit(node)
+                c = node.value
+                if isinstance(c, ast.Call) and isinstance(c.func, ast.Name) and c.func.id == 'setattr' and len(c.args) == 3 and not c.keywords \
+                        and isinstance(c.args[1], ast.Constant) and isinstance(c.args[1].value, str) and c.args[1].value.isidentifier():
+                    tgt = ast.copy_location(ast.Attribute(value=c.args[0], attr=c.args[1].value, ctx=ast.Store()), c)
+                    return ast.copy_location(ast.Assign(targets=[tgt], value=c.args[2], lineno=node.lineno), node)
+                return node
+        T().visit(func)
+
     def _values_to_lambda(self, func, fctx):
         """N3: a single-return new closure / helper method used as a value becomes a lambda"""
         norm = self
@@ -865,6 +960,48 @@ class Normaliser:
                 if self._remove_stmt(tree, h.func):
                     self.log.append(f'N5 {h.path}: new helper {h.qual} has no remaining reference, dropped')
 
+    # ---------------------------------------------------------------- N6 new keyword arguments -> positional
+    def _keywords(self, path, qual, func, cls, known):
+        a = func.args.posonlyargs + func.args.args
+        sname = a[0].arg if (cls and a) else 'self'
+        counts, ldefs = {}, {}
+        for n in ast.walk(func):
+            if isinstance(n, ast.Name) and isinstance(n.ctx, ast.Store):
+                counts[n.id] = counts.get(n.id, 0) + 1
+        for n in ast.walk(func):
+            if isinstance(n, ast.Assign) and len(n.targets) == 1 and isinstance(n.targets[0], ast.Name) and counts.get(n.targets[0].id) == 1:
+                ldefs[n.targets[0].id] = n.value
+        for n in ast.walk(func):
+            if not isinstance(n, ast.Call) or not n.keywords or any(k.arg is None for k in n.keywords) or any(isinstance(x, ast.Starred) for x in n.args):
+                continue
+            cal = n.func.attr if isinstance(n.func, ast.Attribute) else n.func.id if isinstance(n.func, ast.Name) else '?'
+            if all(f'{cal}:{k.arg}' in known for k in n.keywords):
+                continue
+            cands = self.effects.resolve(n, cls, ldefs, sname)
+            if not cands:
+                continue
+            orders = set()
+            for c in cands:
+                ps = [x.arg for x in c.args.posonlyargs + c.args.args]
+                owner = self.effects._owner.get(id(c))
+                if owner and 'staticmethod' not in _decorators(c):
+                    ps = ps[1:]
+                orders.add(tuple(ps))
+            if len(orders) != 1:
+                continue
+            ps = list(orders.pop())
+            kw = {k.arg: k.value for k in n.keywords}
+            args = list(n.args)
+            moved = []
+            while len(args) < len(ps) and ps[len(args)] in kw:
+                nm = ps[len(args)]
+                args.append(kw.pop(nm))
+                moved.append(nm)
+            if moved:
+                n.args = args
+                n.keywords = [k for k in n.keywords if k.arg in kw]
+                self.log.append(f'N6 {path}::{qual}: new keyword argument(s) {moved} of {cal}() made positional')
+
     # ---------------------------------------------------------------- N4 forward substitution
     def _forward(self, path, qual, func, known):
         if known is None:
@@ -879,9 +1016,134 @@ class Normaliser:
             if isinstance(n, ast.Assign) and len(n.targets) == 1 and isinstance(n.targets[0], ast.Name) and counts.get(n.targets[0].id) == 1:
                 ldefs[n.targets[0].id] = n.value
         self._cur = (cls, ldefs, a[0].arg if (cls and a) else 'self')
+        params = {x.arg for x in a + func.args.kwonlyargs}
+        self._fold_new_locals(path, qual, func, known | params)
+        before = len(self.log)
         for _ in range(80):
-            if not self._forward_once(path, qual, func, known):
+            if not (self._forward_once(path, qual, func, known) or self._coalesce_once(path, qual, func, known | params)):
                 break
+        if len(self.log) > before:
+            self._fold_attr_strings(func)
+
+    def _coalesce_once(self, path, qual, func, known):
+        """t = ...; (statements using only t); x = t   with the new local t dead afterwards and x untouched in between
+        ->  the same statements computing into x directly"""
+        for blk in self._blocks(func):
+            for j, s in enumerate(blk):
+                if not (isinstance(s, ast.Assign) and len(s.targets) == 1 and isinstance(s.value, ast.Name)):
+                    continue
+                if not isinstance(s.targets[0], ast.Name):
+                    if self._coalesce_path(path, qual, func, known, blk, j):
+                        return True
+                    continue
+                x, t = s.targets[0].id, s.value.id
+                if t in known or x == t:
+                    continue
+                occ = [n for n in ast.walk(func) if (isinstance(n, ast.Name) and n.id == t) or (isinstance(n, ast.arg) and n.arg == t)
+                       or (isinstance(n, (ast.FunctionDef, ast.ClassDef)) and n.name == t)]
+                first = None
+                for i in range(j):
+                    b = blk[i]
+                    if isinstance(b, ast.Assign) and len(b.targets) == 1 and isinstance(b.targets[0], ast.Name) and b.targets[0].id == t:
+                        first = i
+                        break
+                if first is None:
+                    continue
+                region = blk[first:j + 1]
+                inside = set()
+                for st in region:
+                    for n in ast.walk(st):
+                        inside.add(id(n))
+                if any(id(n) not in inside for n in occ):
+                    continue
+                if any(isinstance(n, (ast.Lambda, ast.FunctionDef)) for st in region for n in ast.walk(st)):
+                    continue
+                # x may be read by the first binding's right-hand side (t = f(x)), nowhere else before x = t
+                if any(isinstance(n, ast.Name) and n.id == x for st in blk[first + 1:j] for n in ast.walk(st)):
+                    continue
+                tr = _Rename({t: x}, {})
+                for i in range(first, j):
+                    blk[i] = tr.visit(blk[i])
+                del blk[j]
+                self.log.append(f'N4 {path}::{qual}: new local {t} coalesced into {x}')
+                return True
+        return False
+
+    def _coalesce_path(self, path, qual, func, known, blk, j) -> bool:
+        """t = C(...); t.a = ..; t.b = ..; self.f[i] = t   (t a new local, dead afterwards; no call and no mention of self.f
+        in between)  ->  self.f[i] = C(...); self.f[i].a = ..; self.f[i].b = .."""
+        s = blk[j]
+        X, t = s.targets[0], s.value.id
+        if t in known or not (_is_path(X) and _path_indices_simple(X)):
+            return False
+        ra = root_and_attrs(X)
+        if not ra or not ra[1]:
+            return False
+        first = None
+        for i in range(j):
+            b = blk[i]
+            if isinstance(b, ast.Assign) and len(b.targets) == 1 and isinstance(b.targets[0], ast.Name) and b.targets[0].id == t:
+                first = i
+                break
+        if first is None:
+            return False
+        occ = [n for n in ast.walk(func) if (isinstance(n, ast.Name) and n.id == t) or (isinstance(n, ast.arg) and n.arg == t)]
+        inside = {id(n) for st in blk[first:j + 1] for n in ast.walk(st)}
+        if any(id(n) not in inside for n in occ):
+            return False
+        if sum(1 for n in occ if isinstance(n, ast.Name) and isinstance(n.ctx, ast.Store)) != 1:
+            return False
+        idx_names = {n.id for n in ast.walk(X) if isinstance(n, ast.Name)}
+        for st in blk[first + 1:j]:
+            if not isinstance(st, ast.Assign):
+                return False
+            for n in ast.walk(st):
+                if isinstance(n, ast.Call) and not _is_pure_call(n):
+                    return False
+                if isinstance(n, (ast.Lambda, ast.FunctionDef)):
+                    return False
+                if isinstance(n, ast.Attribute) and n.attr == ra[1][0] and isinstance(n.value, ast.Name) and n.value.id == ra[0]:
+                    return False
+                if isinstance(n, ast.Name) and isinstance(n.ctx, ast.Store) and n.id in idx_names:
+                    return False
+        if any(isinstance(n, ast.Attribute) and n.attr == ra[1][0] and isinstance(n.value, ast.Name) and n.value.id == ra[0] for n in ast.walk(blk[first].value)):
+            return False
+        load = copy.deepcopy(X)
+        for n in ast.walk(load):
+            if hasattr(n, 'ctx'):
+                n.ctx = ast.Load()
+        blk[first].targets = [copy.deepcopy(X)]
+        tr = _Rename({}, {t: load})
+        for i in range(first + 1, j):
+            blk[i] = tr.visit(blk[i])
+            # stores through t: the Name node with Store ctx cannot occur (single binding); attribute targets keep their ctx
+        del blk[j]
+        self.log.append(f'N4 {path}::{qual}: new local {t} coalesced into {ast.unparse(X)}')
+        return True
+
+    def _fold_new_locals(self, path, qual, func, known):
+        """if c: v = a else: v = b  ->  v = a if c else b   for new locals v (exact equivalence)"""
+        def fold(stmts):
+            out = []
+            for st in stmts:
+                for name in ('body', 'orelse', 'finalbody'):
+                    b = getattr(st, name, None)
+                    if isinstance(b, list) and b and isinstance(b[0], ast.stmt) and not isinstance(st, (ast.FunctionDef, ast.ClassDef)):
+                        setattr(st, name, fold(b))
+                if isinstance(st, ast.Try):
+                    for h in st.handlers:
+                        h.body = fold(h.body)
+                if isinstance(st, ast.If) and len(st.body) == 1 and len(st.orelse) == 1:
+                    x, y = st.body[0], st.orelse[0]
+                    if all(isinstance(b, ast.Assign) and len(b.targets) == 1 and isinstance(b.targets[0], ast.Name) for b in (x, y)) \
+                            and x.targets[0].id == y.targets[0].id and x.targets[0].id not in known:
+                        val = ast.copy_location(ast.IfExp(test=st.test, body=x.value, orelse=y.value), st)
+                        out.append(ast.copy_location(ast.Assign(targets=[ast.Name(id=x.targets[0].id, ctx=ast.Store())], value=val, lineno=st.lineno), st))
+                        self.log.append(f'N4 {path}::{qual}: if/else binding of new local {x.targets[0].id} folded into a conditional expression')
+                        continue
+                out.append(st)
+            return out
+        func.body = fold(func.body)
 
     def _forward_once(self, path, qual, func, known):
         params = {x.arg for x in func.args.posonlyargs + func.args.args + func.args.kwonlyargs}
@@ -1012,8 +1274,11 @@ class Normaliser:
         for nm in comp_bound:
             deps.pop(nm, None)
         path_attrs = set(root_and_attrs(R)[1]) if (_is_path(R) and _path_indices_simple(R)) else None
+        view = False
+        if path_attrs is None and _is_path(R) and self._is_numpy_view(R):
+            path_attrs, view = set(root_and_attrs(R)[1]), True
         for j, st in enumerate(later[:last + 1]):
-            if self._may_disturb(st, deps, v, final=(j == last), path_attrs=path_attrs):
+            if self._may_disturb(st, deps, v, final=(j == last), path_attrs=path_attrs, view=view):
                 return False
         # capture check: names bound by comprehensions/lambdas at the use sites must not clash with R's free names
         free = set(deps)
@@ -1024,9 +1289,16 @@ class Normaliser:
                         if _nested_bound_names([ast.Expr(value=n)]) & free:
                             return False
         tr = _Rename({}, {v: R})
+        new_later = []
         for j in range(last + 1):
-            later[j] = tr.visit(later[j])
-        blk[i + 1:i + 1 + last + 1] = later[:last + 1]
+            st = tr.visit(later[j])
+            # a, b = (x, y) produced by the substitution -> a = x; b = y  (when no target is read by a later element)
+            sp_ = _split_tuple_assign(st) if isinstance(R, ast.Tuple) else None
+            if sp_:
+                new_later.extend(sp_)
+                continue
+            new_later.append(st)
+        blk[i + 1:i + 1 + last + 1] = new_later
         del blk[i]
         return True
 
@@ -1037,19 +1309,40 @@ class Normaliser:
             self._effects = Effects(self.modules)
         return self._effects
 
-    def _may_disturb(self, st, deps, v, final, path_attrs=None) -> bool:
+    def _is_numpy_view(self, R) -> bool:
+        """x.f[a:b] (basic slices only) of a field that holds a numpy array: a view - in-place stores into the array are
+        seen through it exactly as through the re-evaluated expression; only a rebinding of x.f matters"""
+        e, nsl = R, 0
+        while isinstance(e, ast.Subscript):
+            sl = e.slice
+            parts = sl.elts if isinstance(sl, ast.Tuple) else [sl]
+            if not all(isinstance(p_, ast.Slice) and all(b is None or isinstance(b, ast.Constant) or (isinstance(b, ast.UnaryOp) and isinstance(b.operand, ast.Constant))
+                                                         for b in (p_.lower, p_.upper, p_.step)) for p_ in parts):
+                return False
+            nsl += 1
+            e = e.value
+        return nsl > 0 and isinstance(e, ast.Attribute) and e.attr in self.effects.numpy_fields and _attr_chain_only(e)
+
+    def _may_disturb(self, st, deps, v, final, path_attrs=None, view=False) -> bool:
         """may the statement rebind or mutate something the right-hand side reads?  path_attrs is given when the
         right-hand side is a pure reference path (self.a[b].c): then only a rebinding of one of its attributes matters"""
         reads_self_fields = bool(deps.get('self'))
         exempt = None
         if final and isinstance(st, (ast.Assign, ast.Expr, ast.Return, ast.AugAssign)) and isinstance(st.value, ast.Call):
             exempt = st.value       # its arguments (where v is used) are evaluated before it runs, and v is not used afterwards
+        own = []
+        if final and isinstance(st, ast.Assign):
+            own = [t for t in st.targets if isinstance(t, ast.Name)]
+        elif final and isinstance(st, ast.AugAssign) and isinstance(st.target, ast.Name):
+            own = [st.target]
         for n in ast.walk(st):
             if isinstance(n, ast.Name) and isinstance(n.ctx, (ast.Store, ast.Del)) and n.id in deps:
+                if any(n is t for t in own):
+                    continue        # the statement's own binding happens after its value (where v is used) is evaluated
                 return True
             if isinstance(n, (ast.FunctionDef, ast.ClassDef)) and n.name in deps:
                 return True
-            if isinstance(n, ast.AugAssign) and isinstance(n.target, ast.Name) and n.target.id in deps:
+            if isinstance(n, ast.AugAssign) and isinstance(n.target, ast.Name) and n.target.id in deps and not any(n.target is t for t in own):
                 return True
             tgt = None
             if isinstance(n, (ast.Attribute, ast.Subscript)) and isinstance(n.ctx, (ast.Store, ast.Del)):
@@ -1059,6 +1352,8 @@ class Normaliser:
             if tgt is not None and final and isinstance(st, (ast.Assign, ast.AugAssign)) and \
                     any(tgt is t for t in (st.targets if isinstance(st, ast.Assign) else [st.target])):
                 tgt = None      # the statement's own store is the last thing it does: every use of v in it is evaluated before
+            if tgt is not None and view and isinstance(tgt, ast.Subscript):
+                tgt = None      # in-place store into the array: visible through the view as through the expression
             if tgt is not None:
                 ra = root_and_attrs(tgt)
                 if ra and ra[0] in deps and ra[0] != v:
@@ -1076,7 +1371,7 @@ class Normaliser:
                     if ra and (set(ra[1]) & path_attrs or (not ra[1] and ra[0] in deps)):
                         return True
                 cls_, ldefs_, sname_ = self._cur
-                mw = self.effects.of_call(n, cls_, ldefs_, sname_)
+                mw = self.effects.of_call(n, cls_, ldefs_, sname_, rebinds_only=view)
                 if '*' in mw or mw & path_attrs:
                     return True
                 continue
@@ -1113,7 +1408,7 @@ def apply(modules: dict) -> list:
     for path, mod in modules.items():
         cur = names_of_module(mod.tree)
         ref = bm.get(path)
-        if ref is None or cur['consts'] != ref['consts'] or cur['funcs'] != ref['funcs']:
+        if ref is None or cur['consts'] != ref['consts'] or cur['funcs'] != ref['funcs'] or cur['kws'] != ref.get('kws'):
             dirty = True
             break
     if not dirty:
